@@ -289,6 +289,11 @@ func (w *World) errNonNil(cond ast.Expr, val bool) bool {
 // satisfying goal, never entering a vertex in avoid. Starts themselves are not
 // tested against goal unless inclusive is set. nil if none.
 func (g *Graph) pathAvoiding(starts []int, goal func(int) bool, avoid map[int]bool, inclusive bool) []int {
+	return g.pathAvoidingE(starts, goal, avoid, inclusive, nil)
+}
+
+// pathAvoidingE additionally never takes an edge in noEdge (excused branches).
+func (g *Graph) pathAvoidingE(starts []int, goal func(int) bool, avoid map[int]bool, inclusive bool, noEdge map[[2]int]bool) []int {
 	prev := make([]int, len(g.V))
 	for i := range prev {
 		prev[i] = -2
@@ -325,6 +330,9 @@ func (g *Graph) pathAvoiding(starts []int, goal func(int) bool, avoid map[int]bo
 			}
 			seenStart[s] = true
 			for _, t := range g.V[s].Succ {
+				if noEdge[[2]int{s, t}] {
+					continue
+				}
 				if prev[t] == -2 && !avoid[t] {
 					prev[t] = -1
 					q = append(q, t)
@@ -339,10 +347,62 @@ func (g *Graph) pathAvoiding(starts []int, goal func(int) bool, avoid map[int]bo
 			return build(v)
 		}
 		for _, t := range g.V[v].Succ {
+			if noEdge[[2]int{v, t}] {
+				continue
+			}
 			push(t, v)
 		}
 	}
 	return nil
+}
+
+// Excuse names a branch outcome that a must-pass rule tolerates: paths on which
+// Cond evaluates to Val need not pass the required site (e.g. read-only mode,
+// a non-update transaction).
+type Excuse struct {
+	Cond func(e ast.Expr) bool
+	Val  bool
+}
+
+// excusedEdges maps excuses to CFG edges: the successor edge of an if-condition
+// vertex taken when the (possibly negated) condition has the excused value.
+func (g *Graph) excusedEdges(ex []Excuse) map[[2]int]bool {
+	if len(ex) == 0 {
+		return nil
+	}
+	out := map[[2]int]bool{}
+	for _, v := range g.V {
+		e, ok := v.N.(ast.Expr)
+		if !ok || len(v.Succ) != 2 {
+			continue
+		}
+		neg := false
+		x := unparen(e)
+		for {
+			u, ok := x.(*ast.UnaryExpr)
+			if !ok || u.Op != token.NOT {
+				break
+			}
+			neg = !neg
+			x = unparen(u.X)
+		}
+		for _, c := range ex {
+			if !c.Cond(x) {
+				continue
+			}
+			val := c.Val
+			if neg {
+				val = !val
+			}
+			// Succ[0] is the branch taken when the whole condition is true
+			if val {
+				out[[2]int{v.ID, v.Succ[0]}] = true
+			} else {
+				out[[2]int{v.ID, v.Succ[1]}] = true
+			}
+		}
+	}
+	return out
 }
 
 func (g *Graph) describePath(p []int) []string {
